@@ -296,6 +296,8 @@ def gen_world(rw, tier="quick"):
             path = {p[2]: [float(D(x)) for x in prices[p[2]]]}
             markets.append(DR.gen_deribit_market(rw, p[1], n, path, token=p[2], start=str(start), expiries=["after_last"] * 5 + ["on_hour"],
                                                  n_instruments=rw.choice([1, 2, 3, 4]), closed_state_prob=0.02))
+            if rw.random() < 0.35:
+                _levels_on_the_caps(rw, markets[-1])
         elif p[0] == "gmx1":
             markets.append(G.gen_gmx1_market(rw, p[1], n, prices, tokens=dict(p[2])))
         elif p[0] == "gmx2":
@@ -488,6 +490,28 @@ def _sq_ops(rp, mw, pool_name):
     return {"op": "sq.burn_and_withdraw", "m": name, "a": {"vault": {"id": 9999}, "burn": "1", "withdraw": "1"}}
 
 
+CAP_FACTORS = ("1.25", "1.5", "2", "4", "5")  # cap multiples k for which mark x k is exact in binary AND in decimal when the mark is m/1024
+CAP_FACTORS_BIDS = ("2", "4")  # ... and for which mark / k is
+
+
+def _levels_on_the_caps(rw, mw):
+    """Books whose ask levels sit exactly at mark x k and whose bid levels sit exactly at mark / k for the cap multiples the
+    programs use. The market compares the float level price with Decimal(float mark) x k, so 'exactly' needs numbers that are
+    exact in binary: marks are moved to the nearest m/1024. A level priced exactly at a price cap is the one place where
+    'inside the cap' can be read either way - the accounting of the order must be consistent whichever way the code reads it."""
+    for h in mw["hours"]:
+        for nm in sorted(h["rows"]):
+            row = h["rows"][nm]
+            if D(row["mark"]) <= 0 or rw.random() < 0.4:
+                continue
+            mark = D(max(1, round(float(row["mark"]) * 1024))) / 1024
+            row["mark"] = format(mark, "f")
+            ks = sorted(rw.sample(CAP_FACTORS, rw.randint(2, 4)), key=D)
+            sizes = [lv[1] for lv in row["asks"] + row["bids"]] or ["5"]
+            row["asks"] = [[format(mark * D(k), "f"), sizes[i % len(sizes)]] for i, k in enumerate(ks)]
+            row["bids"] = [[format(mark / D(k), "f"), sizes[(i + 1) % len(sizes)]] for i, k in enumerate(CAP_FACTORS_BIDS)]
+
+
 def _drb_trade(rp, tok, is_buy, n_ins):
     small = ["1", "2", "3", "7", "2.5", "12"] if tok == "ETH" else ["0.1", "0.3", "1", "0.25", "2.5", "4"]
     mode = rp.choice(["market"] * 8 + ["token"] * 4 + ["usd"] * 2 + ["cap"] * 3 + ["token+cap"])
@@ -518,7 +542,7 @@ def _drb_trade(rp, tok, is_buy, n_ins):
     if limit:
         a["px"] = {"level": j, "mul": rp.choice(["1"] * 8 + ["1.0004", "0.9996", "1.003", "0.997"])}
     if mode in ("cap", "token+cap"):
-        a["k"] = rp.choice(["1", "1.01", "1.05", "1.3", "2", "5"])
+        a["k"] = rp.choice(["1", "1.01", "1.05", "1.3", "2", "5", "1.25", "1.5", "4", "2", "5"])
     if rp.random() < 0.1:
         a["as_float"] = True
     return a
